@@ -141,12 +141,6 @@ func implReaderC(chunks [][]byte, eof bool, failData []byte, budget int) (msgs [
 			close(rd.resume) // everything delivered so far is all there will be
 		case m := <-recv:
 			d := tea.VerifDescribeMsg(m)
-			if strings.HasPrefix(d, "unknowncsi ") {
-				// The message aliases the read buffer, which the reader goroutine
-				// is already refilling: only its length is stable here. (The
-				// `detect` stream compares the content synchronously.)
-				d = fmt.Sprintf("unknowncsi len=%d", strings.Count(d, ",")+1)
-			}
 			msgs = append(msgs, d)
 			if budget >= 0 && len(msgs) >= budget {
 				cancel()
@@ -513,11 +507,6 @@ func (g *inputGen) mouseTail(c *corrOut, r *rng) []byte {
 // checkExpect runs the real reader on chunks and compares with the expected
 // message list; a mismatch is a property failure observed on the implementation.
 func (g *inputGen) checkExpect(c *corrOut, prop, what string, chunks [][]byte, want []string) {
-	for i, w := range want {
-		if strings.HasPrefix(w, "unknowncsi ") {
-			want[i] = fmt.Sprintf("unknowncsi len=%d", strings.Count(w, ",")+1)
-		}
-	}
 	exp := strings.Join(want, " | ")
 	for _, eof := range []bool{true, false} {
 		if !eof && len(chunks) > 0 && len(chunks[len(chunks)-1]) == 256 {
@@ -575,6 +564,7 @@ func runePayload(line string) string {
 
 func streamReader(c *corrOut, g *inputGen, r *rng, n int, thorough bool) {
 	kr := g.doc.KeyRunes
+	csiContentStable(c)
 	// C08: every documented key between two other events, in one read
 	for i := range g.doc.Sequences {
 		for _, alt := range []bool{false, true} {
@@ -977,4 +967,36 @@ func init() {
 	}
 	streams["detect"] = withGen(streamDetect)
 	streams["reader"] = withGen(streamReader)
+}
+
+// csiContentStable: a message, once delivered, says what it said when it was delivered. The
+// unknown-CSI message carries the bytes of the sequence: they must still be those bytes after the
+// reader has gone on reading (Update looks at the message while the reader already works on the
+// next input).
+func csiContentStable(c *corrOut) {
+	seq := []byte("\x1b[12;3$y")
+	next := []byte("ZZZZZZZZZZZZ")
+	rd := &scriptedReader{chunks: [][]byte{seq, next}, final: io.EOF}
+	ch := make(chan tea.Msg)
+	ctx, cancel := context.WithCancel(context.Background())
+	defer cancel()
+	go func() { tea.VerifReadAnsiInputs(ctx, ch, rd) }()
+	var first tea.Msg
+	select {
+	case first = <-ch:
+	case <-time.After(3 * time.Second):
+		return
+	}
+	at := tea.VerifDescribeMsg(first)
+	// the reader reads on: the next message arrives (the buffer has been refilled)
+	select {
+	case <-ch:
+	case <-time.After(3 * time.Second):
+	}
+	later := tea.VerifDescribeMsg(first)
+	want := evUnknownCSI([]byte("12;3"), []byte("$"), 'y').want
+	if at != want || later != want {
+		c.addFinding(finding{Property: "C09", Class: "new", What: "the content of a delivered message changed after delivery (it does not account for the bytes it consumed any more)",
+			Input: "reads: " + hexOf(seq) + " then " + hexOf(next), Expected: want, Observed: "at delivery: " + at + "; after the next read: " + later})
+	}
 }
